@@ -170,4 +170,7 @@ pub fn run(ctx: &Ctx) {
     }
     // ---- D2: operand forms through the assembler and the interpreter
     crate::l1::run_forms(ctx, crate::l1::FormSet::Arith);
+    if ctx.tier == Tier::Thorough {
+        crate::fuzzrun::exec_campaign(ctx, &["add", "adc", "sub", "sbb", "cmp", "inc", "dec", "neg"], &[]);
+    }
 }
